@@ -614,7 +614,31 @@ func c17Variadic(c *Ctx, p *Prog, m *Model) {
 			}
 		}
 		if len(elemLoads) == 0 {
-			continue // only forwards the arguments
+			// the arguments are only forwarded: either to the sibling that picks (nothing to decide here), or to a
+			// private helper that returns the pick; the helper's result is decided on its term
+			if prm, isPrm := vb.(*ssa.Parameter); isPrm {
+				te := newTermEval(p)
+				for _, cs := range callsIn(fn) {
+					call, isCall := cs.(*ssa.Call)
+					if !isCall || call.Type().String() != "bool" || calleeOf(cs) == nil {
+						continue
+					}
+					var hasTrue, hasElem bool
+					for _, a := range te.eval(call, nil).alts() {
+						if a.Op == "const" && a.Name == "true" {
+							hasTrue = true
+						}
+						if a.Op == "index" && a.Args[0].isParam(prm) {
+							hasElem = true
+						}
+					}
+					if hasElem {
+						n++
+						r.Check(hasTrue, "R17.5", "variadic-bool:"+shortName(fn), p.FuncPos(fn), "no argument means true (picked by "+shortName(calleeOf(cs))+")", "a ...bool option whose value is not 'on' when called without argument (picked by "+shortName(calleeOf(cs))+"): the documented call form without argument is a no-op")
+					}
+				}
+			}
+			continue
 		}
 		n++
 		key := "variadic-bool:" + shortName(owner)
